@@ -267,7 +267,7 @@ def opts_to_argv(opts):
     if opts.get('repeat'):
         argv += ['--repeat', str(opts['repeat'])]
     if opts.get('shuffle_seed') is not None:
-        argv += ['--shuffle', '--shuffle-seed', str(opts['shuffle_seed'])]
+        argv += ['--shuffle', '--shuffle-seed=%d' % opts['shuffle_seed']]
     elif opts.get('shuffle'):
         argv.append('--shuffle')
     if opts.get('stop'):
